@@ -52,7 +52,7 @@ func genPrelude() string {
 	sb.WriteString(pow2lit(64))
 	sb.WriteString(strings.Repeat(")", 64))
 	sb.WriteString(")\n")
-	sb.WriteString("(declare-fun bit8 (Int Int) Bool)\n")
+	sb.WriteString("(declare-fun bit8 (Int Int) Bool)\n(assert (forall ((k Int)) (! (not (bit8 0 k)) :pattern ((bit8 0 k)))))\n")
 	return sb.String()
 }
 
